@@ -21,6 +21,8 @@ def job(args):
         v, _ = verdict(pid, "/repo", {rel: new})
         if v != "ok":
             hits.append(pid + ("!" if v == "error" else ""))
+            if os.environ.get("PROBE_FIRST_HIT"):
+                break               # one reporting check is enough to know the edit does not survive
     return q, d, hits
 
 
